@@ -29,6 +29,9 @@ def run_plan(case):
                               overrides=case.get("overrides"), line_overrides=case.get("line_overrides"),
                               blank=blank, kind=case.get("kind"), sample=case.get("sample"),
                               informational=case.get("informational"))
+    if case.get("vol_trailing"):
+        # bytes after the last record (a file padded to a block boundary by the medium it came from): not part of any record
+        b.files[b.names["vol"]] = b.files[b.names["vol"]] + {"nul": b"\0", "blank": b" ", "junk": b"REMARKS:"}[case["vol_trailing"][0]] * case["vol_trailing"][1]
     res = {"case": case, "bad": [], "n": 0, "open": "ok"}
     fs = case.get("fs", "local")
     url = imgrun.put_on_fs(b, fs, f"lf_{case['seed']}_{case.get('k')}")
